@@ -119,7 +119,7 @@ impl<'a> Planner<'a> {
                 self.validate_expr_columns(group_expr, &tables_in_scope)?;
             }
 
-            let aggregates = self.extract_aggregates(select.columns);
+            let aggregates = self.extract_aggregates_with_having(select.columns, select.having);
             let agg = self
                 .arena
                 .alloc(LogicalOperator::Aggregate(LogicalAggregate {
@@ -275,7 +275,7 @@ impl<'a> Planner<'a> {
                 self.validate_expr_columns(group_expr, &tables_in_scope)?;
             }
 
-            let aggregates = self.extract_aggregates(select.columns);
+            let aggregates = self.extract_aggregates_with_having(select.columns, select.having);
             let agg = self
                 .arena
                 .alloc(LogicalOperator::Aggregate(LogicalAggregate {
@@ -424,6 +424,33 @@ impl<'a> Planner<'a> {
         for col in columns {
             if let SelectColumn::Expr { expr, .. } = col {
                 self.collect_aggregates_from_expr(expr, &mut aggregates);
+            }
+        }
+
+        aggregates.into_bump_slice()
+    }
+
+    /// The aggregates of the select list followed by those that only HAVING mentions (HAVING looks
+    /// its aggregates up among the computed ones; one that is not computed would read as NULL).
+    pub(crate) fn extract_aggregates_with_having(
+        &self,
+        columns: &'a [SelectColumn<'a>],
+        having: Option<&'a Expr<'a>>,
+    ) -> &'a [&'a Expr<'a>] {
+        let mut aggregates = bumpalo::collections::Vec::new_in(self.arena);
+
+        for col in columns {
+            if let SelectColumn::Expr { expr, .. } = col {
+                self.collect_aggregates_from_expr(expr, &mut aggregates);
+            }
+        }
+        if let Some(having) = having {
+            let mut extra = bumpalo::collections::Vec::new_in(self.arena);
+            self.collect_aggregates_from_expr(having, &mut extra);
+            for agg in extra {
+                if !aggregates.iter().any(|a| **a == *agg) {
+                    aggregates.push(agg);
+                }
             }
         }
 
